@@ -30,7 +30,9 @@ def Rule.all : List Rule := [.unbalanced, .mixedOps, .mixedNested, .typeMix, .tw
 def Rule.plant (r : Rule) (k : Nat) : String :=
   match r with
   | .unbalanced => #["(", ")", "{", "Cex(u", "M(v))", "}"].getD (k % 6) "("
-  | .mixedOps => #["M((ma [AND] mb [OR] mc))", "F((fa [XOR] fb [AND] fc))", "Cex(((xa [OR] xb) [AND] xc [XOR] xd))"].getD (k % 3) ""
+  | .mixedOps => #["M((ma [AND] mb [OR] mc))", "F((fa [XOR] fb [AND] fc))", "Cex(((xa [OR] xb) [AND] xc [XOR] xd))",
+                   "M(((ma [OR] mb) [AND] (mc [AND] md [OR] me)))", "Cex((xa [OR] xb) and (xc [AND] xd [OR] xe))",
+                   "F(((fa [XOR] fb) [OR] ((fc [AND] fd) [AND] (fe [OR] ff [XOR] fg))))"].getD (k % 6) ""
   | .mixedNested => #["O{A(ma) I(mb)} [OR] O{A(mc) I(md)} [AND] O{A(me) I(mf)}", "Cex{A(ma) I(mb)} [AND] Cex{A(mc) I(md)} [XOR] Cex{A(me) I(mf)}",
                       "O{A(ma) I(mb)} [XOR] O{A(mc) I(md)} [OR] O{A(me) I(mf)}"].getD (k % 3) ""
   | .typeMix => #["Cac{Cac{A(ta) I(tb)} [AND] Bdir{A(tc) I(td)}}", "Cex{Cex{A(ta) I(tb)} [XOR] Cac{A(tc) I(td)}}",
